@@ -114,7 +114,7 @@ def worker(job):
                 d["smt2_sample"] = tm.smt_script(list(ob.pc) + [tm.Not(ob.goal)], produce_models=False)[:3000]
             obs.append(d)
         return dict(key=key, status=res["status"], error=res["error"], stats=res["stats"], obligations=obs,
-                    files=v.ip.files_read, time=round(time.time() - t0, 2), trivial=v.counter.get("trivial", 0),
+                    precondition=res.get("precondition", "none"), files=v.ip.files_read, time=round(time.time() - t0, 2), trivial=v.counter.get("trivial", 0),
                     assumptions=list(getattr(cls, "assumptions", [])))
     except solve.SolverDisagreement as e:
         return dict(key=key, status="checker-error", error="solver disagreement: %s" % e, obligations=[], files={},
@@ -201,6 +201,9 @@ def main():
             errors.append((fkey, "vacuous: zero obligations generated"))
         elif r["stats"] and not r["stats"].get("paths"):
             errors.append((fkey, "vacuous: precondition unsatisfiable or no path reaches an exit"))
+        elif r.get("precondition") == "unsat":
+            errors.append((fkey, "vacuous: the preconditions of the contract are contradictory"))
+        pf["precondition_satisfiable"] = r.get("precondition", "none")
         for o in mine:
             total += 1
             pf["obligations"] += 1
@@ -219,7 +222,7 @@ def main():
         if e.get("status") == "violation":
             failed.append(dict(id="extra:" + e["name"], key="extra:" + e["name"], verdict="sat", model=e.get("witness", {}),
                                goal=e.get("what", ""), trace=[], func="extra", kind="extra", label=e["name"],
-                               meta={}, smt2=""))
+                               meta={}, smt2="", replay_cmd=e.get("replay_cmd")))
         elif e.get("status") == "checker-error":
             errors.append(("extra:" + e["name"], e.get("error")))
 
@@ -255,19 +258,30 @@ def main():
             violations.append(o)
     still_undecided = [o for o in undecided if o["key"] not in known_keys and not o.get("nofail")]
 
+    repdir = os.path.join(HERE, "replays") if os.path.realpath(REPO) == "/repo" else os.path.join(HERE, ".work", "replays_scratch")
+    os.makedirs(repdir, exist_ok=True)
+    for fn in os.listdir(repdir):
+        if fn.startswith(a.prop + "_"):
+            os.unlink(os.path.join(repdir, fn))
     for n, o in enumerate(violations):
-        path = os.path.join(HERE, "replays", "%s_%d.json" % (a.prop, n))
+        path = os.path.join(repdir, "%s_%d.json" % (a.prop, n))
         rep = dict(property=a.prop, obligation=o["id"], function=o["func"], kind=o["kind"], clause=o["label"],
                    goal=o.get("goal"), counter_model=o.get("model"), trace=o.get("trace"), meta=o.get("meta"),
                    solver_output=o.get("detail"), smt2=o.get("smt2"))
         confirmed = None
-        try:
-            from replay import harness
-            confirmed, text = harness.replay_obligation(a.prop, o)
-            rep["replay"] = text
-            rep["replay_confirmed"] = confirmed
-        except Exception as e:
-            rep["replay"] = "replay unavailable: %s" % e
+        if o.get("kind") == "extra":
+            # found by running the real code on a concrete input (bounded harness): the input is in counter_model
+            confirmed = True
+            rep["replay"] = "concrete failing input found on the real code; re-run it with: %s" % o.get("replay_cmd", "(see harness)")
+            rep["replay_confirmed"] = True
+        else:
+            try:
+                from replay import harness
+                confirmed, text = harness.replay_obligation(a.prop, o)
+                rep["replay"] = text
+                rep["replay_confirmed"] = confirmed
+            except Exception as e:
+                rep["replay"] = "replay unavailable: %s" % e
         json.dump(rep, open(path, "w"), indent=1, default=str)
         tail = "" if confirmed else " no-failing-input-found"
         print("VIOLATION property=%s replay=%s obligation=%s%s" % (a.prop, path, o["id"], tail))
